@@ -371,7 +371,8 @@ def _run_tplot(case, ctx):
     ads, T = r.choice([("nitrogen", 77.355), ("argon", 87.3)])
     a = pygaps.Adsorbate.find(ads)
     M, rho = a.molar_mass(), a.liquid_density(T)
-    p, style = _grid(r, 0.01, 0.95)
+    # (a third of the recordings start in the micropore-filling range, as high-resolution instruments do)
+    p, style = _grid(r, r.choice([0.01, 0.01, 1e-5, 1e-6, 3e-7]), 0.95)
     t = _thick(tm, p)
     n = slope * t + intercept  # mmol/g
     # limits in thickness, strictly between points
